@@ -103,6 +103,33 @@ func vfC19(w *vfWorld) {
 		cs.ReverseProxy = vfPick(t, "c19.realip", []string{"X-Real-IP", "X-Forwarded-For", "X-ProxyUser-IP", "X-Envoy-External-Address", "CF-Connecting-IP"})
 		cfg.Extra = append(cfg.Extra, "--real-client-ip-header="+cs.ReverseProxy)
 	}
+	// option values at the edge of what validation accepts: whatever it lets through must then be handled without a crash
+	// (configurations it refuses are skipped below)
+	if t.Prob("c19.borderline", 300) {
+		var f string
+		switch t.Choice("c19.borderkind", 7) {
+		case 0:
+			cfg.CookieSameSite = vfPick(t, "c19.b.samesite", []string{"Lax", "STRICT", "None", "sTrIcT", "default", "lax "})
+			f = "--cookie-samesite=" + cfg.CookieSameSite
+		case 1:
+			f = "--code-challenge-method=" + vfPick(t, "c19.b.pkce", []string{"s256", "PLAIN", "S512", "S256 "})
+		case 2:
+			cfg.ReverseProxy = true
+			f = "--real-client-ip-header=" + vfPick(t, "c19.b.realip", []string{"x-real-ip", "X-REAL-IP", "x-forwarded-for", "X-Client-IP", ""})
+		case 3:
+			f = "--skip-auth-route=" + vfPick(t, "c19.b.route", []string{"GET=(", "=^/x", "!=", "GET,POST=^/y", "get=^/open", "GET==^/z"})
+		case 4:
+			f = "--trusted-ip=" + vfPick(t, "c19.b.ip", []string{"10.0.0.0/33", "::ffff:10.0.0.0/104", "localhost", "10.0.0.1/32/", "@"})
+		case 5:
+			f = vfPick(t, "c19.b.page", []string{"--banner=-", "--footer=-", "--custom-sign-in-logo=-", "--display-htpasswd-form=false", "--provider-display-name="})
+		case 6:
+			f = vfPick(t, "c19.b.misc", []string{"--cookie-csrf-expire=0s", "--cookie-expire=0s", "--cookie-refresh=0s", "--approval-prompt=", "--scope=", "--prompt=none", "--oidc-email-claim=sub", "--user-id-claim=email"})
+		}
+		if !strings.HasPrefix(f, "--cookie-samesite=") {
+			cfg.Extra = append(cfg.Extra, f)
+		}
+		cs.Options = append(cs.Options, "borderline:"+f)
+	}
 	idp := w.StartIdP()
 	idp.IDTokenTTL, idp.AccessTTL = 100*time.Hour, 100*time.Hour
 	idp.Mint = func(m *vfMintCtx) {
